@@ -266,6 +266,22 @@ def rule_dispatch_pairing(ctx):
                         continue
                     n += 1
                     by_const.setdefault(k_, []).append((system, 'src/%s:%s %s' % (cfile, line_of(e), fname), callee_name(e)))
+        # the same selection written as a table of function pointers indexed by the constant: [REB_..._COORDINATES_X] = fn.
+        # The designators are not part of the semantic initialiser list clang exports, so they are read from the
+        # declaration's source lines.
+        for gname, g in sorted(tu.globals.items()):
+            if 'init' not in g or '[' not in cfront.qtype(g) or cfront.basename(g.get('_locfile') or g.get('_file') or '') != cfile:
+                continue
+            l0, l1 = g.get('_line'), g.get('_endline') or g.get('_line')
+            if not l0:
+                continue
+            text = ' '.join(cfront.source_line(cfile, ln_) or '' for ln_ in range(l0, l1 + 1))
+            for m_ in re.finditer(r'\[\s*(REB_\w*COORDINATES\w*)\s*\]\s*=\s*&?\s*(\w+)', text):
+                mm = pat.match(m_.group(2))
+                if mm:
+                    a, b = mm.group(1), mm.group(2)
+                    n += 1
+                    by_const.setdefault(m_.group(1), []).append((b if a == 'inertial' else a, 'src/%s:%s %s' % (cfile, l0, gname), m_.group(2)))
     anchor(len(by_const) >= 4 and n >= 6, 'transformation calls selected by a coordinate-system constant')
     for k_, uses in sorted(by_const.items()):
         systems = {}
